@@ -42,6 +42,9 @@ theorem addEntry_inv (s : PState) (k : LKind) (e : Entry) (h : s.iExp ≤ s.brl.
   cases (s.ents k).getLast? with
   | none => exact hpush
   | some last =>
+    simp only
+    split
+    · exact hpush
     cases k
     · simp only; split
       · exact hrep _
@@ -242,6 +245,9 @@ theorem addEntry_xinv (s : PState) (k : LKind) (e : Entry) (h : XInv s) : XInv (
   | none => exact pushEntry_xinv s k e h
   | some last =>
     have hne : s.ents k ≠ [] := by intro h0; simp [h0] at hl
+    simp only
+    split
+    · exact pushEntry_xinv s k e h
     cases k
     · simp only; split
       · exact replaceLast_xinv s _ _ h hne
@@ -271,5 +277,189 @@ theorem xinv_init : XInv {} := by
   · intro _ x hx; simp at hx
   · intro r hr; simp at hr
   · intro x hx; simp at hx
+
+/-! ## with the "extend only the most recently registered entry" rule no exported entry is ever extended -/
+
+/-- invariant of add-only runs (no `Finish` yet) under the "extend only the most recently registered entry" rule -/
+structure AInv (s : PState) : Prop where
+  xi : XInv s
+  nl : s.late = false
+  fresh : ∀ b, s.brl.getLast? = some b → ∀ x, x ∈ s.out → x.link = b.link → x.entry < b.beg
+  pos : ∀ r, r ∈ s.brl → r.beg < r.end_
+
+theorem mem_exportFrom_range (s : PState) : ∀ (rs : List LRange) (i : Nat) (x : XRec),
+    x ∈ exportFrom s i rs → ∃ r, r ∈ rs ∧ x.link = r.link ∧ x.entry < r.end_
+  | [], _, _, hx => by simp [exportFrom] at hx
+  | r :: rs, i, x, hx => by
+    simp only [exportFrom, List.mem_append] at hx
+    rcases hx with hx | hx
+    · simp only [exportRange, List.mem_map, List.mem_range'_1] at hx
+      obtain ⟨j, hj, rfl⟩ := hx
+      exact ⟨r, by simp, rfl, by simp only; omega⟩
+    · obtain ⟨r', hr', h1, h2⟩ := mem_exportFrom_range s rs (i + 1) x hx
+      exact ⟨r', by simp [hr'], h1, h2⟩
+
+theorem mem_of_getLast? {α} (l : List α) (b : α) (h : l.getLast? = some b) : b ∈ l := by
+  obtain ⟨ys, rfl⟩ := List.getLast?_eq_some_iff.mp h
+  simp
+
+theorem exportRemaining_late (s : PState) : (exportRemaining s).late = s.late := rfl
+
+theorem addRange_late (s : PState) (br : LRange) : (addRange s br).late = s.late := by
+  unfold addRange
+  cases s.brl.getLast? with
+  | none => rfl
+  | some b => simp only; split <;> rfl
+
+theorem pushEntry_ainv (s : PState) (k : LKind) (e : Entry) (h : AInv s) : AInv (pushEntry s k e) := by
+  have hx := pushEntry_xinv s k e h.xi
+  have hf := setEnts_fields s k (s.ents k ++ [e])
+  refine ⟨hx, ?_, ?_, ?_⟩
+  · unfold pushEntry; rw [addRange_late, hf.2.1]; exact h.nl
+  · unfold pushEntry addRange
+    rw [hf.2.2.1]
+    cases hl : s.brl.getLast? with
+    | none =>
+      intro b hb x hxm hk
+      simp only [exportRemaining, List.getLast?_append, List.getLast?_singleton, Option.some_or] at hb
+      simp only [Option.some.injEq] at hb
+      subst hb
+      simp only [exportRemaining, hf.1, hf.2.2.1, hf.2.2.2, List.mem_append] at hxm
+      simp only at hk ⊢
+      rcases hxm with hxm | hxm
+      · have := h.xi.ent x hxm; rw [hk] at this; exact this
+      · obtain ⟨r, hr, h1, h2⟩ := mem_exportFrom_range _ _ _ x hxm
+        have := h.xi.rng r (List.mem_of_mem_drop hr)
+        rw [← h1, hk] at this; omega
+    | some b0 =>
+      simp only
+      split
+      · rename_i hc
+        simp only [Bool.and_eq_true, decide_eq_true_eq] at hc
+        intro b hb x hxm hk
+        simp only [List.getLast?_append, List.getLast?_singleton, Option.some_or, Option.some.injEq] at hb
+        subst hb
+        simp only [hf.1] at hxm
+        exact h.fresh b0 hl x hxm hk
+      · intro b hb x hxm hk
+        simp only [exportRemaining, List.getLast?_append, List.getLast?_singleton, Option.some_or,
+          Option.some.injEq] at hb
+        subst hb
+        simp only [exportRemaining, hf.1, hf.2.2.1, hf.2.2.2, List.mem_append] at hxm
+        simp only at hk ⊢
+        rcases hxm with hxm | hxm
+        · have := h.xi.ent x hxm; rw [hk] at this; exact this
+        · obtain ⟨r, hr, h1, h2⟩ := mem_exportFrom_range _ _ _ x hxm
+          have := h.xi.rng r (List.mem_of_mem_drop hr)
+          rw [← h1, hk] at this; omega
+  · unfold pushEntry addRange
+    rw [hf.2.2.1]
+    cases hl : s.brl.getLast? with
+    | none =>
+      intro r hr
+      simp only [exportRemaining, hf.2.2.1, List.mem_append, List.mem_singleton] at hr
+      rcases hr with hr | hr
+      · exact h.pos r hr
+      · subst hr; simp
+    | some b0 =>
+      simp only
+      split
+      · rename_i hc
+        simp only [Bool.and_eq_true, decide_eq_true_eq] at hc
+        intro r hr
+        simp only [List.mem_append, List.mem_singleton] at hr
+        rcases hr with hr | hr
+        · exact h.pos r ((List.dropLast_sublist _).subset hr)
+        · subst hr
+          have := h.pos b0 (mem_of_getLast? _ _ hl)
+          simp only; omega
+      · intro r hr
+        simp only [exportRemaining, hf.2.2.1, List.mem_append, List.mem_singleton] at hr
+        rcases hr with hr | hr
+        · exact h.pos r hr
+        · subst hr; simp
+
+
+theorem replaceLast_fields (s : PState) (k : LKind) (e' : Entry) :
+    (replaceLast s k e').brl = s.brl ∧ (replaceLast s k e').out = s.out := by
+  have hf := setEnts_fields s k ((s.ents k).dropLast ++ [e'])
+  unfold replaceLast
+  exact ⟨hf.2.2.1, hf.1⟩
+
+theorem replaceLast_ainv (s : PState) (k : LKind) (e' : Entry) (h : AInv s) (hne : s.ents k ≠ [])
+    (hlast : isLastReg s k = true) : AInv (replaceLast s k e') := by
+  have hx := replaceLast_xinv s k e' h.xi hne
+  have hf := replaceLast_fields s k e'
+  refine ⟨hx, ?_, ?_, ?_⟩
+  · have hfs := setEnts_fields s k ((s.ents k).dropLast ++ [e'])
+    unfold replaceLast
+    simp only [Bool.or_eq_false_iff]
+    refine ⟨h.nl, ?_⟩
+    cases hex : isExported s k ((s.ents k).length - 1) with
+    | false => rfl
+    | true =>
+      exfalso
+      simp only [isExported, List.any_eq_true, Bool.and_eq_true, decide_eq_true_eq] at hex
+      obtain ⟨x, hxm, hk, he⟩ := hex
+      unfold isLastReg at hlast
+      cases hl : s.brl.getLast? with
+      | none => simp [hl] at hlast
+      | some b =>
+        simp only [hl, Bool.and_eq_true, decide_eq_true_eq] at hlast
+        have h1 := h.fresh b hl x hxm (by rw [hk, hlast.1])
+        have h2 := h.pos b (mem_of_getLast? _ _ hl)
+        omega
+  · intro b hb x hxm hk
+    rw [hf.1] at hb; rw [hf.2] at hxm
+    exact h.fresh b hb x hxm hk
+  · intro r hr
+    rw [hf.1] at hr
+    exact h.pos r hr
+
+theorem addEntry_ainv (s : PState) (k : LKind) (e : Entry) (h : AInv s) : AInv (addEntry s k e) := by
+  unfold addEntry
+  cases hl : (s.ents k).getLast? with
+  | none => exact pushEntry_ainv s k e h
+  | some last =>
+    have hne : s.ents k ≠ [] := by intro h0; simp [h0] at hl
+    simp only
+    split
+    · exact pushEntry_ainv s k e h
+    · rename_i hlast
+      have hlast' : isLastReg s k = true := by simpa using hlast
+      cases k
+      · simp only; split
+        · exact replaceLast_ainv s _ _ h hne hlast'
+        · exact pushEntry_ainv s _ e h
+      · simp only; split
+        · exact replaceLast_ainv s _ _ h hne hlast'
+        · split
+          · exact replaceLast_ainv s _ _ h hne hlast'
+          · exact pushEntry_ainv s _ e h
+      · simp only; split
+        · exact replaceLast_ainv s _ _ h hne hlast'
+        · split
+          · exact replaceLast_ainv s _ _ h hne hlast'
+          · exact pushEntry_ainv s _ e h
+
+/-- a run consisting of `AddEntry` calls only -/
+def addsOf (l : List (LKind × Entry)) : List XOp := l.map (fun p => .add p.1 p.2)
+
+theorem xrun_adds_ainv : ∀ (l : List (LKind × Entry)) (s : PState), AInv s → AInv (xrun s (addsOf l))
+  | [], _, h => h
+  | p :: l, s, h => xrun_adds_ainv l (addEntry s p.1 p.2) (addEntry_ainv s p.1 p.2 h)
+
+theorem ainv_init : AInv {} := by
+  refine ⟨xinv_init, rfl, ?_, ?_⟩
+  · intro b hb; simp at hb
+  · intro r hr; simp at hr
+
+theorem export_complete (l : List (LKind × Entry)) :
+    XInv (xrun {} (addsOf l ++ [.finish])) ∧ (xrun {} (addsOf l ++ [.finish])).late = false := by
+  have h := xrun_adds_ainv l {} ainv_init
+  have : xrun {} (addsOf l ++ [.finish]) = exportRemaining (xrun {} (addsOf l)) := by
+    simp [xrun, List.foldl_append, xstep]
+  rw [this]
+  exact ⟨exportRemaining_inv _ h.xi, h.nl⟩
 
 end MpVerif.C20
